@@ -51,7 +51,18 @@ func (p *Prog) reachableFrom(entries map[string]*ssa.Function) map[*ssa.Function
 				if mi, ok := in.(*ssa.MakeInterface); ok {
 					if n := p.moduleNamed(mi.X.Type()); n != nil {
 						for _, m := range p.handWrittenMethods(n) {
-							if !knownFuncs[funcName(m)] {
+							if knownFuncs[funcName(m)] {
+								continue
+							}
+							callable := implicitMethods[m.Name()]
+							if it, ok := mi.Type().Underlying().(*types.Interface); ok {
+								for i := 0; i < it.NumMethods(); i++ {
+									if it.Method(i).Name() == m.Name() {
+										callable = true
+									}
+								}
+							}
+							if callable {
 								visit(m)
 							}
 						}
